@@ -50,15 +50,16 @@ def possible(schema, t):
 
 
 def relation(schema, parent, t):
-    """How does type condition `t` relate to the enclosing composite type `parent`?"""
+    """How does type condition `t` relate to the enclosing composite type `parent`?  Declared
+    relations (implements / union membership) decide sub/super; mere overlap of possible types
+    is 'sibling'."""
     if parent.name == t.name:
         return "same"
-    pp, tp = possible(schema, parent), possible(schema, t)
-    if not (pp & tp):
+    if not (possible(schema, parent) & possible(schema, t)):
         return None
-    if tp < pp or (tp == pp and not is_abstract_type(t)):
+    if is_abstract_type(parent) and schema.is_sub_type(parent, t):
         return "sub_iface" if is_abstract_type(t) else "sub_object"
-    if pp < tp or pp == tp:
+    if is_abstract_type(t) and schema.is_sub_type(t, parent):
         return "super"
     return "sibling"
 
@@ -242,7 +243,7 @@ class OpGen:
                 rel = relation(self.schema, parent, t)
                 if isinstance(t, GraphQLUnionType):
                     continue
-                pk = "abs" if is_abstract_type(parent) else "obj"
+                pk = kind_of(parent)
                 if not d.enabled(f"sel.inline_{rel}_{pk}"):
                     continue
                 if inline_depth > 0 and not d.enabled("sel.nested_inline"):
@@ -256,6 +257,7 @@ class OpGen:
                 if d.bool(0.08) and d.enabled("sel.directive_on_inline"):
                     dr = self._directive()
                 items.append(f"... on {t.name}{dr} {sub}")
+                scope.setdefault("__inl", set()).add(t.name)
                 d.tag("op.inline_fragment")
                 if rel != "same":
                     narrowing = True
@@ -275,13 +277,15 @@ class OpGen:
                 rel = relation(self.schema, parent, t)
                 if rel is None:
                     continue
-                pk = "abs" if is_abstract_type(parent) else "obj"
+                pk = kind_of(parent)
                 if not d.enabled(f"sel.spread_{rel}_{pk}"):
                     continue
                 mode = "same" if rel == "same" else "other"
                 if self.frag_use.get(fname, mode) != mode and not d.enabled("sel.spread_mixed_use"):
                     continue
-                if inline_depth > 0 and not d.enabled("sel.spread_inside_inline"):
+                if inline_depth > 0 and rel != "same" and not d.enabled("sel.spread_inside_inline_narrowing"):
+                    continue
+                if inline_depth > 0 and fr["narrowing_deep"] and not d.enabled("sel.nested_inline"):
                     continue
                 if in_fragment is not None and rel != "same" and is_abstract_type(parent) \
                         and not d.enabled("frag.narrowing_spread_inside"):
@@ -296,13 +300,25 @@ class OpGen:
                     (rel == "same" and narrowing) or (rel != "same" and same_spread)
                 ) and not d.enabled("sel.spread_same_abs_with_narrowing"):
                     continue
+                # the generator under test treats inline fragments found through spreads as inline
+                # fragments of this position
+                if isinstance(parent, GraphQLInterfaceType):
+                    ok = True
+                    for tn in sorted(fr["keys"].get("__inl", ())):
+                        r2 = relation(self.schema, parent, self.schema.type_map[tn])
+                        if r2 not in ("same", "sub_object") and not d.enabled(f"sel.inline_{r2}_iface"):
+                            ok = False
+                    if not ok:
+                        continue
+                fkeys = {k2: v2 for k2, v2 in fr["keys"].items() if k2 != "__inl"}
                 # response keys of the fragment must not clash with the scope
-                if any(k2 in scope and scope[k2] != sig for k2, sig in fr["keys"].items()):
+                if any(k2 in scope and scope[k2] != sig for k2, sig in fkeys.items()):
                     continue
-                if any(k2 in scope for k2 in fr["keys"]):
+                if any(k2 in scope for k2 in fkeys):
                     if not d.enabled("sel.merge_same_key"):
                         continue
-                scope.update(fr["keys"])
+                scope.update(fkeys)
+                scope.setdefault("__inl", set()).update(fr["keys"].get("__inl", ()))
                 self.frag_use.setdefault(fname, mode)
                 spread_here.append(fname)
                 if rel == "same":
@@ -419,6 +435,14 @@ class OpGen:
         defs = [o["text"] for o in ops] + [self.fragments[f]["text"] for f in self.frag_order]
         defs = d.shuffle(defs)
         return ops, "\n\n".join(defs) + "\n"
+
+
+def kind_of(t):
+    if isinstance(t, GraphQLUnionType):
+        return "union"
+    if isinstance(t, GraphQLInterfaceType):
+        return "iface"
+    return "obj"
 
 
 def get_nullable(t):
